@@ -144,7 +144,15 @@ class XL:
         return dict(nElements=n, nAtomsAll=c.nAtomsAll, molarMass=c.molarMass, Elements=[c.Elements[i] for i in range(n)],
                     massFractions=[c.massFractions[i] for i in range(n)], nAtoms=[c.nAtoms[i] for i in range(n)])
 
-    def parse(self, s):
+    def parse(self, s, slot=True):
+        if not slot:                     # the same call WITHOUT an error slot: a composition or None
+            p = self.lib.CompoundParser(_b(s), None)
+            self.calls += 1
+            if not p:
+                return None
+            d = self._cd(p)
+            self.lib.FreeCompoundData(p)
+            return d
         e = C.POINTER(XrlError)()
         p = self.lib.CompoundParser(_b(s), C.byref(e))
         self.calls += 1
